@@ -7,15 +7,49 @@ B = z3.BoolSort()
 S = z3.StringSort()
 Obj = z3.DeclareSort("Obj")
 
-_cnt = itertools.count()
+_n = [0]
+
+
+def _next():
+    _n[0] += 1
+    return _n[0]
+
+
+def fresh_mark():
+    """all names created by fresh()/fresh_fun() after this call carry a number > the returned mark"""
+    return _n[0]
 
 
 def fresh(prefix, sort=I):
-    return z3.Const(f"{prefix}!{next(_cnt)}", sort)
+    return z3.Const(f"{prefix}!{_next()}", sort)
 
 
 def fresh_fun(prefix, *sorts):
-    return z3.Function(f"{prefix}!{next(_cnt)}", *sorts)
+    return z3.Function(f"{prefix}!{_next()}", *sorts)
+
+
+def fresh_since(mark, terms):
+    """(constants, functions): the fresh uninterpreted symbols numbered > mark that occur in the given z3 terms"""
+    consts, funs, seen = {}, {}, set()
+    todo = [t for t in terms if t is not None]
+    while todo:
+        t = todo.pop()
+        if t.get_id() in seen:
+            continue
+        seen.add(t.get_id())
+        if z3.is_quantifier(t):
+            todo.append(t.body())
+            continue
+        if z3.is_app(t):
+            d = t.decl()
+            if d.kind() == z3.Z3_OP_UNINTERPRETED:
+                nm = d.name()
+                if "!" in nm:
+                    tail = nm.rsplit("!", 1)[1]
+                    if tail.isdigit() and int(tail) > mark:
+                        (consts if d.arity() == 0 else funs)[nm] = t if d.arity() == 0 else d
+            todo.extend(t.children())
+    return list(consts.values()), list(funs.values())
 
 
 _ufs = {}
@@ -143,6 +177,41 @@ class SSet(SVal):
     def __init__(s, member, ek="int"):
         s.member = member  # Array ek -> Bool
         s.ek = ek
+
+
+class SMap(SVal):
+    """dict with symbolic keys of one kind: presence array + value array (no iteration, no cardinality)."""
+
+    def __init__(s, has, val, kk="obj", vk="int"):
+        s.has, s.val, s.kk, s.vk = has, val, kk, vk
+
+    @staticmethod
+    def empty(kk, vk):
+        return SMap(z3.K(sort_of(kk), z3.BoolVal(False)), fresh("mapval", z3.ArraySort(sort_of(kk), sort_of(vk))), kk, vk)
+
+    def __repr__(s):
+        return f"SMap[{s.kk}->{s.vk}]"
+
+
+class SZip(SVal):
+    """list of equal-arity tuples with symbolic length: parallel homogeneous sequences sharing one length (struct of arrays)."""
+
+    def __init__(s, arrs, n, eks, pykind="list"):
+        s.arrs, s.eks, s.pykind = list(arrs), list(eks), pykind
+        s.n = n if z3.is_expr(n) else z3.IntVal(int(n))
+
+    @staticmethod
+    def empty(eks):
+        return SZip([fresh("zipcol", z3.ArraySort(I, sort_of(k))) for k in eks], 0, eks)
+
+    def col(s, j):
+        return SSeq(s.arrs[j], s.n, s.eks[j], "list")
+
+    def at(s, i):
+        return STup([wrap(z3.Select(a, i), k) for a, k in zip(s.arrs, s.eks)])
+
+    def __repr__(s):
+        return f"SZip[{','.join(s.eks)}](n={s.n})"
 
 
 class SFunc(SVal):
